@@ -160,7 +160,12 @@ def r8_attach_iff_tracked(facts):
                 missing = [n for n in present if n not in kids]
                 extra = [k for k in kids if k not in present]
                 if missing:
-                    problems.append(("violated", row, "attached, but operand(s) %s are not recorded as children" % missing))
+                    # a private helper that receives the array under construction by value next to the operands (`fn finish(result: Array, operand: &Array, ..)`)
+                    byval = {name for name, kind, p_ in ops if p_["ty"] == ARRAY}
+                    if not b.get("reachable") and b.get("impl_trait_def") is None and set(missing) <= byval and len(byval) < len(present):
+                        problems.append(("unclassified", row, "private helper: by-value parameter(s) %s are not recorded as children (the array under construction, or an operand that is dropped?)" % missing))
+                    else:
+                        problems.append(("violated", row, "attached, but operand(s) %s are not recorded as children" % missing))
                 if extra:
                     problems.append(("unclassified", row, "children %s are not operands" % extra))
             else:
@@ -381,6 +386,28 @@ def r13_linearity(facts):
     # ---- engine: the delta path of Array::backward (inlined view)
     from . import pass_rules as PR
     PR.engine_seed_linearity(c, facts)
+    # ---- the reduction every broadcast contribution goes through (a summary in the engine's delta path): linear in the delta it reduces
+    for fb in facts.fns():
+        if fb.get("impl_self") == ARRAY and fb.get("impl_trait_def") is None and fb.get("name") == "flatten_to" and fb.get("thir"):
+            where = "%s:%d" % (F.rel(fb["file"]), fb["sp"][0])
+            lin = LV.Lin(facts)
+            try:
+                r = lin.local_fn(fb, [LV.tL, LV.tC])
+                cls = LV.scalar(lin.read(r))
+            except RecursionError:
+                c.unk("reduce:flatten_to", where, "analysis recursion limit")
+                continue
+            if lin.control_on_adjoint:
+                if lin.notes:
+                    c.unk("reduce:flatten_to#control", where, "control flow of the reduction may depend on the delta (%s); a callee had no summary (%s)" % (lin.control_on_adjoint[0], "; ".join(lin.notes)[:120]))
+                else:
+                    c.bad("reduce:flatten_to#control", where, "the reduction of a broadcast delta branches on the delta's values (%s): the reduced adjoint is not a linear function of the delta" % lin.control_on_adjoint[0])
+            if cls == LV.L:
+                c.ok("reduce:flatten_to", where, "flatten_to(delta, dims) : L (linear-homogeneous in the delta)")
+            elif lin.notes:
+                c.unk("reduce:flatten_to", where, "the reduction could not be typed L (%s): %s" % (cls, "; ".join(lin.notes)[:200]))
+            else:
+                c.bad("reduce:flatten_to", where, "the reduction of a broadcast delta is not linear in the delta (typed %s)" % cls)
     return c
 
 
